@@ -117,6 +117,18 @@ theorem bigSizeFrame_wellFramed (n : Nat) (body : Bytes) (hn : n < 0xfd) (hb : b
   have h1 : (UInt8.ofNat n).toNat = n := by simp; omega
   simp [bigSizeFrame, h1, hn, hb]; omega
 
+/-- ... and so are the longer ones with the 3-byte `0xfd` BigSize prefix (253 … 65535 bytes: final-hop
+    payloads with payment metadata / custom TLVs) -/
+theorem bigSizeFrame_wellFramed_u16 (hi lo : UInt8) (body : Bytes)
+    (hv : 0xfd ≤ hi.toNat * 256 + lo.toNat) (hb : body.length = hi.toNat * 256 + lo.toNat) :
+    WellFramed bigSizeFrame (0xfd :: hi :: lo :: body) := by
+  intro rest
+  simp [bigSizeFrame, hb]
+  omega
+
+example : WellFramed bigSizeFrame (0xfd :: 1 :: 4 :: zeros 260) :=
+  bigSizeFrame_wellFramed_u16 1 4 _ (by decide) (by simp)
+
 /-! ## integrity -/
 
 /-- **MAC first.** Anything `peel` accepts satisfies the HMAC equation under the hop's `mu` over
